@@ -21,6 +21,16 @@ def is_overflow_refusal(e):
     return bool(c is not None and c is not e and is_overflow_refusal(c))
 
 
+CLI_REFUSAL_MARKS = ("OverflowError", "does not fit in format", "format requires", "out of bounds", "out of range", "struct.error")
+
+
+def cli_refusal(output):
+    """The text of a failed CLI build shows an explicit does-not-fit error (the CLI counterpart of is_overflow_refusal)."""
+    import re as _re
+
+    return any(k in output for k in CLI_REFUSAL_MARKS) or bool(_re.search(r"AssertionError: \(-?\d+(\.\d+)?, '", output))
+
+
 def user_matrix(cfg):
     t = cfg.transform
     return geom.aff(t.a, t.b, t.c, t.d, t.e, t.f)
@@ -89,6 +99,10 @@ def check_colr_font(built, want_clip_check=True):
         pr, st = compare.compare_layers(ref, got, tol)
         for p in pr:
             p.update({"input": i, "glyph": name, "codepoints": list(inp.codepoints)})
+            rb = p.get("ref_bbox")
+            if rb and cfg.color_format.startswith("cff") and max(rb[2] - rb[0], rb[3] - rb[1]) > 32767:
+                # a contour spanning more than a Type 2 charstring operand can hold: the encoder wraps the delta
+                p["mechanism"] = "F12-cff-charstring-delta-overflow"
         problems.extend(pr)
         stats["layers"] += len(ref)
         stats["gradient_layers"] += st["gradient_layers"]
@@ -230,7 +244,7 @@ def built_from_cli(sources, cfg, scratch, contracts_on=True):
             flags += [f"--{k}", str(v)]
     ev = root / "ev.jsonl"
     rc, out = cli.nanoemoji(flags + sorted(f["name"] for f in files), src, cli.env_for(events=ev, contracts=contracts_on, ninja_j=4), timeout=600)
-    info = {"rc": rc, "output": out[:2500], "contract_events": [e for e in cli.events(ev) if e["kind"] in ("contracts", "contracts_error")]}
+    info = {"rc": rc, "output": out if len(out) < 6000 else out[:1500] + "\n...\n" + out[-4000:], "contract_events": [e for e in cli.events(ev) if e["kind"] in ("contracts", "contracts_error")]}
     if rc != 0:
         return None, info
     cwd = os.getcwd()
